@@ -37,7 +37,8 @@ Inductive wreq :=
 Inductive request :=
 | RqTriggers (idx : list Z) (emt_noise : bool)   (* channel indices; EdgeMulti with the unimplemented noise option *)
 | RqPulseLengths (nsamp npre : Z)
-| RqProjectors (idx : Z) (b64ok matok : bool) (pcols : Z)  (* base64 / matrix decoding succeed; projector columns *)
+| RqProjectors (idx : Z) (b64ok matok : bool) (pcols brows bcols : Z)
+    (* base64 / matrix decoding succeed; the projectors are 1 x pcols (one basis vector), the basis is brows x bcols *)
 | RqWriteControl (w : wreq)
 | RqStateLabel (empty : bool)
 | RqComment (empty : bool)
@@ -71,7 +72,7 @@ Inductive cond :=
 | CTrigIdxNeg         (* some index is negative (old code: indexes ds.processors[-k]) *)
 | CLenOk              (* ConfigurePulseLengths: npre >= 3, nsamp >= 1, nsamp >= npre+1 *)
 | CProjIdxOk          (* ConfigureProjectorsBases: 0 <= idx < len(processors) *)
-| CProjDimsOk         (* SetProjectorsBasis: projector columns = NSamples (basis consistent) *)
+| CProjDimsOk         (* SetProjectorsBasis: projector columns = NSamples, basis is NSamples x (number of bases) *)
 | CWcFormats          (* writeControlStart: some format requested *)
 | CWriting            (* writing already in progress / writingState.Active *)
 | CWcOffNeedsProj     (* OFF requested and no channel has projectors *)
@@ -130,7 +131,7 @@ Definition script_of (fixed : bool) (r : request) : script :=
              (SWork WkNone (reply_and_end RErr))
   | RqPulseLengths _ _ =>
       SBranch CLenOk (SWork WkSetLens (SWork WkNone (reply_and_end ROk))) (SWork WkNone (reply_and_end RErr))
-  | RqProjectors _ _ _ _ =>
+  | RqProjectors _ _ _ _ _ _ =>
       SBranch CProjIdxOk (SBranch CProjDimsOk (SWork WkSetProj (reply_and_end ROk)) (reply_and_end RErr))
                          (reply_and_end RErr)
   | RqWriteControl w => wc_script fixed w
@@ -159,7 +160,7 @@ Definition script_of (fixed : bool) (r : request) : script :=
 Definition all_wreqs : list wreq :=
   [WStart true false true; WStop; WPause; WUnpause ULNone; WUnpause ULGood; WUnpause ULBad; WGarbage].
 Definition closure_table : list request :=
-  [RqTriggers [] false; RqPulseLengths 0 0; RqProjectors 0 true true 0; RqStateLabel false; RqComment false;
+  [RqTriggers [] false; RqPulseLengths 0 0; RqProjectors 0 true true 0 0 0; RqStateLabel false; RqComment false;
    RqCoupleErrToFB false; RqCoupleFBToErr false; RqGroupAdd []; RqGroupDel []; RqStopCoupling; RqStoreRaw 0]
   ++ map RqWriteControl all_wreqs.
 
@@ -209,8 +210,10 @@ Definition eval_cond (fixed : bool) (e : env) (r : request) (io : bool) (c : con
       && forallb (fun i => (i <? e_nchan e) && (if fixed then 0 <=? i else true)) idx
   | CTrigIdxNeg, RqTriggers idx _ => existsb (fun i => i <? 0) idx
   | CLenOk, RqPulseLengths ns np => (3 <=? np) && (1 <=? ns) && (np + 1 <=? ns)
-  | CProjIdxOk, RqProjectors i _ _ _ => in_range (e_nchan e) i
-  | CProjDimsOk, RqProjectors _ _ _ pc => pc =? e_nsamp e
+  | CProjIdxOk, RqProjectors i _ _ _ _ _ => in_range (e_nchan e) i
+  | CProjDimsOk, RqProjectors _ _ _ pc br bc =>
+      (* SetProjectorsBasis: projector columns = NSamples; basis columns = number of bases (1); basis rows = NSamples *)
+      (pc =? e_nsamp e) && (bc =? 1) && (br =? e_nsamp e)
   | CWcFormats, RqWriteControl (WStart l o _) => l || o
   | CWriting, _ => e_writing e
   | CWcOffNeedsProj, RqWriteControl (WStart _ o _) => o && negb (e_hasproj e)
@@ -247,7 +250,7 @@ Definition precheck (fixed : bool) (e : env) (r : request) (io : bool) : option 
       else if (np =? e_npre e) && (ns =? e_nsamp e) then Some ROk
       else if e_writing e then Some RErr
       else None
-  | RqProjectors _ b64 matok _ => if negb b64 then Some RErr else if negb matok then Some RErr else None
+  | RqProjectors _ b64 matok _ _ _ => if negb b64 then Some RErr else if negb matok then Some RErr else None
   | RqStateLabel empty => if empty then Some RErr else None
   | RqComment empty => if empty then Some RErr else None
   | RqStoreRaw n =>
